@@ -163,6 +163,16 @@ class ElectronRepulsionIntegral(BaseFourIndexSymmetric):
         )
         if swapped:
             cont_one, cont_two, cont_three, cont_four = cont_three, cont_four, cont_one, cont_two
+        # Within a pair, all angular momentum is first built on the first centre and then moved to
+        # the second one with the factor (A - B). If the second shell is the tighter one, the
+        # product centre lies next to B and this transfer cancels large numbers, so the shell with
+        # the larger exponents is treated as the first of its pair.
+        swapped_one_two = np.max(cont_one.exps) < np.max(cont_two.exps)
+        if swapped_one_two:
+            cont_one, cont_two = cont_two, cont_one
+        swapped_three_four = np.max(cont_three.exps) < np.max(cont_four.exps)
+        if swapped_three_four:
+            cont_three, cont_four = cont_four, cont_three
 
         if cont_one.angmom == cont_two.angmom == cont_three.angmom == cont_four.angmom == 0:
             integrals = _compute_two_elec_integrals_angmom_zero(
@@ -206,6 +216,10 @@ class ElectronRepulsionIntegral(BaseFourIndexSymmetric):
             )
         integrals = np.transpose(integrals, (4, 0, 5, 1, 6, 2, 7, 3))
 
+        if swapped_three_four:
+            integrals = np.transpose(integrals, (0, 1, 2, 3, 6, 7, 4, 5))
+        if swapped_one_two:
+            integrals = np.transpose(integrals, (2, 3, 0, 1, 4, 5, 6, 7))
         if swapped:
             integrals = np.transpose(integrals, (4, 5, 6, 7, 0, 1, 2, 3))
 
